@@ -6,7 +6,7 @@ import sys
 from .. import apirun, common
 
 PID = "C15"
-MODULES = ["GroupbyVerif.Props.C15"]
+MODULES = ["GroupbyVerif.Props.C15", "GroupbyVerif.LoopBridge.FindNth", "GroupbyVerif.LoopBridge.FirstLast"]
 RULE = ("kernel level: _find_nth / _find_first_or_last_n on random interleavings of <= 3 groups with null codes, n from 0 to beyond the largest "
         "group, negative n, forward and backward, plus groups of 32766..32770, 65534..65538 and 70000 rows in BOTH tiers; public level: "
         "GroupBy.head/tail/nth(keep_input_index=True) with 1-D and multi-column values, default / non-monotonic / duplicated index, sort on/off; "
